@@ -391,8 +391,9 @@ func (s *Script) ParseInscription() (*InscriptionArgs, error) {
 		return nil, err
 	}
 
-	// the locking script prefix returned is the 25 bytes of the P2PKH script.
-	if len(*s) < 25 || !isP2PKHInscriptionHelper(p) {
+	// the locking script prefix returned is the 25 bytes of the P2PKH script,
+	// so those 25 bytes have to be one.
+	if len(*s) < 25 || !s.Slice(0, 25).IsP2PKH() || !isP2PKHInscriptionHelper(p) {
 		return nil, ErrP2PKHInscriptionNotFound
 	}
 
